@@ -167,7 +167,7 @@ namespace {
     // one field pushed out of (or to the border of) the valid region; the oracle does not assert an outcome for these
     rc::Gen< std::vector< std::uint8_t > > gen_odd_lldata()
     {
-        return rc::gen::map( rc::gen::tuple( gen_valid_lldata(), verif::range< int >( 0, 8 ), rc::gen::arbitrary< std::uint16_t >() ),
+        return rc::gen::map( rc::gen::tuple( gen_valid_lldata(), verif::range< int >( 0, 9 ), rc::gen::arbitrary< std::uint16_t >() ),
             []( const std::tuple< std::vector< std::uint8_t >, int, std::uint16_t >& t ) {
                 auto           l = std::get< 0 >( t );
                 const unsigned x = std::get< 2 >( t );
@@ -181,7 +181,12 @@ namespace {
                 case 5: put16( l, 12, 500 + x % 2000 ); break;                                                                  // latency
                 case 6: put16( l, 14, x % 2 ? x % 10 : 3201 + x % 5000 ); break;                                                // timeout
                 case 7: put16( l, 14, ( 1 + get16( &l[ 12 ] ) ) * get16( &l[ 10 ] ) / 4 ); break;                               // supervision relation
-                default: l[ 20 ] |= 0xe0; break;                                                                                // RFU bits of the map
+                case 8: l[ 20 ] |= 0xe0; break;                                                                                 // RFU bits of the map
+                default:  // large latency with a large interval: ( latency + 1 ) * 2 * interval does not fit into 32 bit microseconds
+                    put16( l, 10, 3200 - x % 800 );
+                    put16( l, 12, 600 + x % 5000 );
+                    put16( l, 14, 3200 );
+                    break;
                 }
                 return l;
             } );
@@ -421,12 +426,13 @@ namespace {
         std::unique_ptr< device_if > dev;
         Model                        m;
         std::size_t                  seen_adv = 0, seen_evt = 0, seen_cb = 0, step = 0;
-        bool                         excl_stall;
+        bool                         excl_stall, excl_overflow;
         std::set< std::string >      labels;
         unsigned                     one_aspect = 0, accepted = 0, rejected = 0;
 
         Runner( const Case& c, verif::Report& r )
-            : cs( c ), rep( r ), dev( configs()[ c.cfg ].make() ), m( dev->cap() ), excl_stall( verif::opt_has( "exclude", "F-25b" ) )
+            : cs( c ), rep( r ), dev( configs()[ c.cfg ].make() ), m( dev->cap() ), excl_stall( verif::opt_has( "exclude", "F-25b" ) ),
+              excl_overflow( verif::opt_has( "exclude", "F-22b" ) )
         {
         }
 
@@ -588,8 +594,25 @@ namespace {
             return v;
         }
 
-        void deliver( const std::vector< std::uint8_t >& mem, const char* kind )
+        // known finding of C22 (if listed as open with exclude=F-22b): ( latency + 1 ) * 2 * interval overflows the 32 bit
+        // microseconds of delta_time (assert in delta_time::operator*=); such parameters are replaced by latency 499
+        void avoid_latency_overflow( std::vector< std::uint8_t >& mem )
         {
+            const std::size_t body_at = 2 + gap();
+            if ( !excl_overflow || mem.size() != body_at + 34 )
+                return;
+            std::uint8_t* l = &mem[ body_at + 12 ];
+            if ( ( std::uint64_t( get16( l + 12 ) ) + 1 ) * get16( l + 10 ) * 2500 > 0xffffffffull )
+            {
+                l[ 12 ]      = 0xf3;
+                l[ 13 ]      = 0x01;
+                rep.excluded = true;
+            }
+        }
+
+        void deliver( std::vector< std::uint8_t > mem, const char* kind )
+        {
+            avoid_latency_overflow( mem );
             const verdict     v      = judge( mem );
             const std::string sig    = verif::cat( "reason=", v.broken == 0 ? ( v.must_connect ? "none" : v.reason ) : v.reason, " ", cfg_sig() );
             const std::size_t cb_before = cb_log().size();
